@@ -75,6 +75,8 @@ pub struct MItem {
     pub submitted_in_run: u32,
     /// submission depth: 0 = from the top level, n+1 = from an item of depth n
     pub depth: u32,
+    /// the item is the delivery of a ret_to!-style Ret: losing it is also a C05 matter
+    pub ret_tag: bool,
 }
 
 /// Entries of the abstract main queue
@@ -249,6 +251,7 @@ impl Monitor {
             expiry: 0,
             submitted_in_run: self.run_idx,
             depth: 0,
+            ret_tag: false,
         });
         id
     }
@@ -1163,6 +1166,16 @@ impl Monitor {
 
     /// An item's capture is dropped without having run
     pub fn item_dropped(&mut self, id: ItemId) -> R {
+        let tag = self.items[id as usize].ret_tag;
+        self.item_dropped_inner(id).map_err(|mut e| {
+            if tag && !e.props.contains(&"C05") {
+                e.props.push("C05");
+            }
+            e
+        })
+    }
+
+    fn item_dropped_inner(&mut self, id: ItemId) -> R {
         let it = self.items[id as usize].clone();
         let what = format!("item i{} ({:?}, {:?} queue) dropped un-run", id, it.kind, it.q);
         match it.st {
@@ -1449,8 +1462,10 @@ impl Monitor {
     pub fn stakker_drop_end(&mut self) -> R {
         self.dropping = false;
         self.gone = true;
+        // calls that had reached a Prep actor are held by it, not by the Stakker
+        while self.consume_silent_front() {}
         for (i, it) in self.items.iter().enumerate() {
-            let unresolved = matches!(it.st, IState::Pending | IState::Held);
+            let unresolved = matches!(it.st, IState::Pending);
             if unresolved && !it.after_gone && it.gen <= 99 {
                 return Err(v(
                     &["C01", "C16"],
@@ -1466,39 +1481,45 @@ impl Monitor {
     }
 
     /// End of case: everything has been released
-    pub fn final_check(&mut self) -> R {
+    pub fn final_check(&mut self) -> Vec<Viol> {
+        let mut out = Vec::new();
         for (i, it) in self.items.iter().enumerate() {
             match it.st {
                 IState::Ran | IState::Dropped => {}
                 s => {
-                    return Err(v(
+                    out.push(v(
                         &["C01", "C16"],
                         "item-unresolved",
                         format!(
                             "at the end of the case item i{} ({:?}, {:?} queue) is {:?}: neither run nor dropped",
                             i, it.kind, it.q, s
                         ),
-                    ))
+                    ));
+                    break;
                 }
             }
         }
         for (i, a) in self.actors.iter().enumerate() {
             if a.notified.is_none() {
-                return Err(v(
+                out.push(v(
                     &["C03", "C05", "C16"],
                     "notifier-never-invoked",
                     format!("at the end of the case the notifier of actor a{} was never invoked", i),
                 ));
+                break;
             }
+        }
+        for (i, a) in self.actors.iter().enumerate() {
             if a.had_value && !a.value_dropped {
-                return Err(v(
+                out.push(v(
                     &["C03", "C16"],
                     "value-never-dropped",
                     format!("at the end of the case the value of actor a{} was never dropped", i),
                 ));
+                break;
             }
         }
-        Ok(())
+        out
     }
 
     /// Does finding F2 apply to an abrupt drop(stakker) now?
